@@ -183,9 +183,9 @@ func runC07(c *Ctx) {
 		"model2d": {"Collider", "SegmentCollider", "RectCollider", "MultiCollider"},
 	})
 	c.floor("Q", 100)
-	c.floor("A3.CNT", 30)
-	c.floor("A3.GUARD", 25)
-	c.floor("A3.NILDEP", 25)
+	c.floor("A3.CNT", 20)
+	c.floor("A3.GUARD", 15)
+	c.floor("A3.NILDEP", 15)
 	c.runSigned("SIGNED", upkgs)
 	c.floor("SIGNED", 8)
 }
